@@ -44,7 +44,10 @@ var mappers = []mapper{
 	{"+1", func(x int) int { return x + 1 }},
 	{"*2", func(x int) int { return x * 2 }},
 	{"const7", func(int) int { return 7 }},
+	{"-1", func(x int) int { return x - 1 }}, // zero-value alphabet only
 }
+
+const fullMappers, fullJoiners, fullLeafSlices = 3, 6, 16
 
 func upto(x int) []int {
 	var r []int
@@ -73,6 +76,15 @@ var joiners = []joiner{
 		// (elements that satisfy the predicate again remain behind the failing one, so an iterator that is
 		// wrongly resumed after its end would leak them)
 		return seq.TakeWhile(e.slice([]int{1, 2, 9, 1, 2}), func(v int) bool { return v < 3 }), []int{1, 2}
+	}},
+	// zero-value alphabet only: unit sequences holding the zero value of the element type
+	{"From(x-1)", func(e *env, x int) (S, []int) { return seq.From(x - 1), []int{x - 1} }},
+	{"From(0)", func(e *env, x int) (S, []int) { return seq.From(0), []int{0} }},
+	{"[0]-if-odd", func(e *env, x int) (S, []int) {
+		if x%2 == 0 {
+			return nil, nil
+		}
+		return e.slice([]int{0}), []int{0}
 	}},
 }
 
@@ -113,7 +125,8 @@ var leafSlices = func() [][]int {
 			out = append(out, []int{a, b})
 		}
 	}
-	return append(out, []int{1, 2, 3}, []int{3, 2, 1}, []int{1, 3, 2, 4})
+	out = append(out, []int{1, 2, 3}, []int{3, 2, 1}, []int{1, 3, 2, 4})
+	return append(out, []int{0}, []int{0, 1}, []int{1, 0}, []int{0, 0}) // zero-value alphabet only
 }()
 
 // ---- trees ----------------------------------------------------------------
@@ -209,7 +222,7 @@ type alphabet struct {
 
 func fullAlphabet() alphabet {
 	var al alphabet
-	for i := range leafSlices {
+	for i := range leafSlices[:fullLeafSlices] {
 		al.leaves = append(al.leaves, &node{kind: "slice", i: i})
 	}
 	for x := 1; x <= 3; x++ {
@@ -220,12 +233,30 @@ func fullAlphabet() alphabet {
 			al.unary = append(al.unary, node{kind: k, i: i})
 		}
 	}
-	for i := range mappers {
+	for i := range mappers[:fullMappers] {
 		al.unary = append(al.unary, node{kind: "map", i: i})
 	}
-	for i := range joiners {
+	for i := range joiners[:fullJoiners] {
 		al.joins = append(al.joins, i)
 	}
+	return al
+}
+
+// zeroAlphabet: the zero value of the element type is an element like any other - as the only element of a unit
+// sequence (From(0)), inside slices, as the result of a mapping, and as what a flat-map function returns.
+func zeroAlphabet() alphabet {
+	al := alphabet{}
+	for _, i := range []int{0, 1, fullLeafSlices, fullLeafSlices + 1, fullLeafSlices + 2, fullLeafSlices + 3} { // nil, [1], [0], [0 1], [1 0], [0 0]
+		al.leaves = append(al.leaves, &node{kind: "slice", i: i})
+	}
+	al.leaves = append(al.leaves, &node{kind: "from", i: 0}, &node{kind: "from", i: 1})
+	for _, k := range []string{"tw", "dw", "filter"} {
+		for i := range preds {
+			al.unary = append(al.unary, node{kind: k, i: i})
+		}
+	}
+	al.unary = append(al.unary, node{kind: "map", i: 3}, node{kind: "map", i: 1})
+	al.joins = []int{1, 3, fullJoiners, fullJoiners + 1, fullJoiners + 2}
 	return al
 }
 
@@ -363,9 +394,11 @@ func mkCases(tier string) []caseDef {
 	if tier == "thorough" {
 		cs := append(mkCasesFor(fullAlphabet(), 3, "full alphabet"), mkCasesFor(smallAlphabet(), 4, "reduced alphabet")...)
 		cs = append(cs, deeperCases(fullAlphabet(), 3, "full alphabet")...)
+		cs = append(cs, mkCasesFor(zeroAlphabet(), 3, "zero-value alphabet")...)
 		return append(cs, deeperCases(smallAlphabet(), 4, "reduced alphabet")...)
 	}
-	return append(mkCasesFor(al, depth, "full alphabet"), deeperCases(al, 3, "full alphabet")...)
+	cs := append(mkCasesFor(al, depth, "full alphabet"), deeperCases(al, 3, "full alphabet")...)
+	return append(cs, mkCasesFor(zeroAlphabet(), 3, "zero-value alphabet")...)
 }
 
 func mkCasesFor(al alphabet, depth int, tag string) []caseDef {
@@ -465,7 +498,7 @@ func main() {
 	}
 	drv.Main(drv.Property{
 		ID: "C14", Level: "model_checking", PanicIsViolation: true, MemLimitGB: 12,
-		Rule:        "every expression tree of depth <= 3 over the alphabet: leaves FromSlice(xs) for all xs over {1,2,3} of length <= 2 plus [1 2 3], [3 2 1], [1 3 2 4] and nil, From(1..3); TakeWhile/DropWhile/Filter x 5 predicates; Map x 3 functions; Plus; Join x 6 flat-map functions (nil, From(x), [x,x+1], nil-if-odd, [1..x], predicate-terminated TakeWhile for odd x / nil for even x); plus depth 4 in the form: every tree of depth <= 3 as the operand of every unary / Join root and of Plus with one of three leaves (nil, [1], [1 2]) on either side, checked by the drain and the source comparison without the error injection (the shape Plus(DropWhile(Plus(a,b),p),c) of seeded change C14-r2m1 lives there); thorough adds full depth 4 over a reduced alphabet (4 leaves, 7 unary, 3 joins) and its depth-5 extension of the same form. Each tree is rebuilt from fresh source slices (with sentinel-filled spare capacity) for every evaluation and driven as a state machine: at position i Value()==ref[i] and Next()==(i+1<len(ref)); nil iff the list is empty; ForEach with an error injected at every visit position; source slices and their spare capacity byte-identical afterwards. states = (tree, position) pairs, transitions = Next / visit steps; non-trivial = trees whose list has at least 2 elements",
+		Rule:        "every expression tree of depth <= 3 over the alphabet: leaves FromSlice(xs) for all xs over {1,2,3} of length <= 2 plus [1 2 3], [3 2 1], [1 3 2 4] and nil, From(1..3); TakeWhile/DropWhile/Filter x 5 predicates; Map x 3 functions; Plus; Join x 6 flat-map functions (nil, From(x), [x,x+1], nil-if-odd, [1..x], predicate-terminated TakeWhile for odd x / nil for even x); plus depth 4 in the form: every tree of depth <= 3 as the operand of every unary / Join root and of Plus with one of three leaves (nil, [1], [1 2]) on either side, checked by the drain and the source comparison without the error injection (the shape Plus(DropWhile(Plus(a,b),p),c) of seeded change C14-r2m1 lives there); every tree of depth <= 3 over a zero-value alphabet (From(0), [0], [0 1], [1 0], [0 0], nil, [1], From(1); every predicate; Map x-1 and x*2; flat-map functions returning From(x), From(x-1), From(0), [0] or nil): the zero value of the element type is an element like any other; thorough adds full depth 4 over a reduced alphabet (4 leaves, 7 unary, 3 joins) and its depth-5 extension of the same form. Each tree is rebuilt from fresh source slices (with sentinel-filled spare capacity) for every evaluation and driven as a state machine: at position i Value()==ref[i] and Next()==(i+1<len(ref)); nil iff the list is empty; ForEach with an error injected at every visit position; source slices and their spare capacity byte-identical afterwards. states = (tree, position) pairs, transitions = Next / visit steps; non-trivial = trees whose list has at least 2 elements",
 		Assumptions: []string{"iterators are not shared between two trees; Next() is not called again after it returned false", "element values and functions outside the alphabet are not covered; random deeper trees are not sampled"},
 		Cases: func(tier string) (int, func(int) string) {
 			cs := get(tier)
